@@ -365,4 +365,42 @@ SlotClauses(f, c, evs) ==
 
 (* the slot tables are injective: no two lifecycle events share a slot (checked by TLC in MC_Layout) *)
 SlotTableInjective == \A f \in Formats : \A p, q \in SlotTable(f) : (p[2] = q[2] \/ p[1] = q[1]) => p = q
+
+(* ---- DOC: what the implementation additionally does (never decides a verdict; recorded as drift) ---- *)
+DebSlotOrder == <<"config", "postinst", "postrm", "preinst", "prerm", "rules", "templates">>   \* sorted slot names
+DocClauses(f, c, tree, evs) ==
+  LET ctl == TarSeq(evs, "control")
+      cn == [i \in 1..Len(ctl) |-> ctl[i].name]
+      slotsPresent == SelectSeq(DebSlotOrder, LAMBDA n : \E i \in 1..Len(cn) : cn[i] = "./" \o n)
+      hasTrig == \E i \in 1..Len(cn) : cn[i] = "./triggers"
+      debOrder == <<"./control", "./md5sums", "./conffiles">> \o (IF hasTrig THEN <<"./triggers">> ELSE <<>>)
+                  \o [i \in 1..Len(slotsPresent) |-> "./" \o slotsPresent[i]]
+      oe == OuterEvs(evs)
+      dataT == TarSeq(evs, "data")
+  IN CASE f = "deb" ->
+            (IF cn # debOrder THEN {"DOC.deb_control_member_order"} ELSE {})
+            \* provenance of stamps: ar members and control members carry the package mtime
+            \cup (IF c.pmtset /\ \E i \in 1..Len(oe) : oe[i].mt # c.pmt THEN {"DOC.deb_ar_members_stamped_with_package_mtime"} ELSE {})
+            \cup (IF c.pmtset /\ \E i \in 1..Len(ctl) : ctl[i].mt # c.pmt THEN {"DOC.deb_control_members_stamped_with_package_mtime"} ELSE {})
+            \cup (IF c.pmtset /\ \E i \in 1..Len(dataT) : dataT[i].type = "5" /\ dataT[i].mt # c.pmt THEN {"DOC.deb_directories_stamped_with_package_mtime"} ELSE {})
+            \cup (IF \E i \in 1..Len(dataT) : dataT[i].tfmt # "GNU" THEN {"DOC.deb_data_tar_is_gnu_format"} ELSE {})
+       [] f = "ipk" ->
+            (IF cn # <<"./control", "./conffiles">> \o SelectSeq(<<"./preinst", "./postinst", "./prerm", "./postrm">>, LAMBDA n : \E i \in 1..Len(cn) : cn[i] = n)
+             THEN {"DOC.ipk_control_member_order"} ELSE {})
+            \cup (IF c.pmtset /\ \E i \in 1..Len(oe) : oe[i].mt # c.pmt THEN {"DOC.ipk_outer_members_stamped_with_package_mtime"} ELSE {})
+       [] f = "apk" ->
+            \* script members of the control segment carry the script file's own mtime; .PKGINFO carries none
+            (IF \E i \in Idx(evs, LAMBDA e : e.ev = "slot") :
+                  \E p \in SlotTable(f) : p[2] = evs[i].name /\ c.scripts[p[1]] # "" /\ evs[i].mt # c.script_mt[p[1]]
+             THEN {"DOC.apk_scripts_stamped_with_script_mtime"} ELSE {})
+            \cup (IF \E i \in Idx(evs, LAMBDA e : e.ev = "tar" /\ e.in = "control" /\ e.name = ".PKGINFO") : evs[i].mt # 0 THEN {"DOC.apk_pkginfo_unstamped"} ELSE {})
+            \cup (IF \E i \in 1..Len(dataT) : dataT[i].type = "0" /\ dataT[i].tfmt # "PAX" THEN {"DOC.apk_files_are_pax_format"} ELSE {})
+       [] f = "archlinux" ->
+            (IF c.pmtset /\ HasMeta(evs, "pkginfo", "builddate") /\ Meta1(evs, "pkginfo", "builddate") # NatToStr(c.pmt) THEN {"DOC.arch_builddate_is_package_mtime"} ELSE {})
+       [] f = "rpm" ->
+            (IF c.pmtset /\ HasMeta(evs, "hdr", "1006") /\ Meta1(evs, "hdr", "1006") # NatToStr(c.pmt) THEN {"DOC.rpm_buildtime_is_package_mtime"} ELSE {})
+            \cup (IF \E i \in Idx(evs, LAMBDA e : e.ev = "rpmfile") : evs[i].mode \div 4096 = 4 /\ c.pmtset /\ evs[i].mt # c.pmt THEN {"DOC.rpm_directories_stamped_with_package_mtime"} ELSE {})
+            \cup (IF \E i \in Idx(evs, LAMBDA e : e.ev = "rpmfile") : evs[i].mode \div 4096 = 4 /\ evs[i].size # 4096 THEN {"DOC.rpm_directory_size_4096"} ELSE {})
+       [] OTHER -> {}
+
 =============================================================================
